@@ -13,7 +13,7 @@ from ..common import Ctx, Scheme
 FAULTS = ["dup_inter_same_deps", "dup_inter_diff_deps", "dup_cross_comp", "state_param_same_value", "state_param_diff_value",
           "state_vs_inter", "param_vs_inter", "dup_deriv", "dup_state_diff_value", "dup_param_diff_value", "missing_deriv",
           "orphan_deriv", "undefined_symbol", "cycle", "self_cycle", "deriv_other_comp", "dup_inter_comment_differs",
-          "state_param_same_value_cross_comp", "dup_deriv_two_tags", "undeclared_parameter", "dup_inter_two_tags", "undefined_symbol_inert"]
+          "state_param_same_value_cross_comp", "dup_deriv_two_tags", "undeclared_parameter", "dup_inter_two_tags", "undefined_symbol_inert", "dup_inter_regrouped"]
 
 
 def blocks_text(blocks, header=None):
@@ -152,6 +152,19 @@ def inject(rng: random.Random, m: gen.GModel, kind: str):
                 b[2][:] = [ln + " + zz_undefined" if ln.startswith(f"{n} = ") and "#" not in ln else ln for ln in b[2]]
         text = blocks_text(blocks)
         return (text, f"{n} references the undefined symbol zz_undefined") if "zz_undefined" in text else None
+    if kind == "dup_inter_regrouped":
+        # two definitions of one name written with the same symbols and operators in the same order, differing only in
+        # where the parentheses stand (the same token sequence once parentheses are dropped)
+        pool = states + params
+        a, b, c_ = (rng.choice(pool) for _ in range(3))
+        one, two = rng.choice([(f"{a} + {b}*{c_}", f"({a} + {b})*{c_}"), (f"{a} - ({b} - {c_})", f"{a} - {b} - {c_}"),
+                               (f"exp({a} + {b})*{c_}", f"exp({a}) + {b}*{c_}"), (f"{a}/({b}*{c_})", f"{a}/{b}*{c_}"),
+                               (f"-{a}**2", f"(-{a})**2"), (f"2**({a} + 1)", f"2**{a} + 1")])
+        comp = rng.choice(m.comps)
+        i = expr_block(comp)
+        blocks[i][2].append(f"regr_q = {one}")
+        blocks[i][2].append(f"regr_q = {two}")
+        return blocks_text(blocks), f"regr_q defined as `{one}` and as `{two}`"
     if kind == "undefined_symbol_inert":
         # the undefined name sits where no evaluation ever needs it: the dead branch of a condition that is decided when the
         # expression is built (a literal, a reflexive or a sign-definite comparison), a term that cancels, a zero product
